@@ -46,6 +46,8 @@ def prep(g, rnd, task, thumb, itpos, k):
     modes = MODESETS[task.get('modes', 'priv4')]
     mode = modes[k % len(modes)]
     pc = rnd.randrange(2, 58) * 4
+    if thumb and rnd.random() < 0.5:
+        pc += 2                                  # Thumb code at addresses = 2 mod 4: Align(PC, 4) differs from PC there
     C.randomize(st, rnd, mode=mode, thumb=thumb, it=it_state(rnd, itpos) if thumb else 0, pc=pc)
     if g.cfg['arch_version'] >= 7:
         # SCTLR.U is RAO on ARMv7: a v7 state with U = 0 does not exist
